@@ -29,6 +29,9 @@ if os.path.exists(demo):
     stmts = ["\n".join(l for l in s.splitlines() if not l.strip().startswith("--")) for s in stmts]
     case = json.dumps({"id": "d", "mode": "threaded", "threads": 4, "stmts": stmts, "timeout_s": 60}) + "\n"
     res = {}
+    # the checks may not have built this binary on the changed tree
+    subprocess.run(["python3", "-c", "import sys; sys.path.insert(0,'/verif'); from vlib import common; common.build_harness(bin='gverif')"],
+                   env=env, cwd="/verif", stdout=subprocess.PIPE, stderr=subprocess.STDOUT)
     for name, b in (("unchanged", "/verif/.work/target/debug/gverif"), ("changed", "/verif/.work/alt/%s/target/debug/gverif" % tag)):
         p = subprocess.run([b, "sql"], input=case, stdout=subprocess.PIPE, stderr=subprocess.PIPE, text=True)
         try:
